@@ -401,9 +401,9 @@ func TestVerifC06(t *testing.T) {
 	violation := func(format string, a ...any) {
 		fmt.Fprintf(viol, format+"\n", a...)
 	}
-	scale := 1
+	scale := 4
 	if VThorough() {
-		scale = 6
+		scale = 24
 	}
 	scale = VEnvInt("C06_SCALE", scale)
 
